@@ -111,10 +111,16 @@ fn inject(rng: &mut Rng, w: &mut gen::GWorld, site: &str) -> bool {
         }
         "lock-import-set" => {
             // config.toml and imports.lock disagree about the set of imports
-            if rng.chance(1, 2) {
+            let first = w.config.imports.keys().next().cloned();
+            if let (0, Some(k)) = (rng.below(3), first.clone()) {
+                // a peer renamed in config.toml only: same number of imports, other names
+                let v = w.config.imports.remove(&k).unwrap();
+                w.config.imports.insert(if rng.chance(1, 2) { "peer-zz".into() } else { "aa-peer".into() }, v);
+                true
+            } else if rng.chance(1, 2) {
                 w.config.imports.insert("peer-zz".into(), RemoteImport { url: vec!["https://peer-zz.example/audits.toml".into()], ..Default::default() });
                 true
-            } else if let Some(k) = w.config.imports.keys().next().cloned() {
+            } else if let Some(k) = first {
                 w.config.imports.remove(&k);
                 true
             } else {
